@@ -14,23 +14,36 @@ LEVEL = 'proof'
 LEVEL_TEXT = ('Lean theorems, for every lattice given as data (face supports as a table), every error, every '
               'tie-break stream, every loop bound and every step of every run of both sweep automata '
               '(SweepDecoder3D, RotatedSweepDecoder3D, all eight sweep directions): if the flip table agrees '
-              'with the face stabilizers on every edge (decidable hypothesis flipTableOK) the tracked signs equal '
-              'the face syndrome of error + correction so far, the run never raises, the correction is Z-only, '
-              'and a stop without excitations leaves zero face syndrome. flipTableOK (and the two side '
-              'conditions) are proved for Toric3DCode of every size L_i >= 2, Planar3DCode of every size and '
-              'RotatedPlanar3DCode of every size (rotated_planar3D_flip_table_ok, _stabilizers_distinct, '
-              '_sweep_edges_ok: coordinate argument over the (x+y)%4 sub-lattices, no size bound), so C10 holds '
-              'on these three families unconditionally (toric3D_/planar3D_/rotated_planar3D_sweep_tracks); ten '
-              'RotatedPlanar3DCode sizes up to 4x4x2 are additionally kernel-evaluated as an independent '
-              'cross-check, and the compiled model evaluates the hypotheses on every size the harness runs. '
-              'RotatedToric3DCode is a negative instance (known finding D10). The model is tied to the decoders '
-              'by differential runs of flip_edge on every edge, of every sweep_move of traced decodes, and of '
-              'full decode results.')
+              'with the face stabilizers on every edge (decidable hypothesis flipTableOK / flipTableOKRot) the '
+              'tracked signs equal the face syndrome of error + correction so far, the run never raises, the '
+              'correction is Z-only, and a stop without excitations leaves zero face syndrome. Face rows are the '
+              'rows the decoder does not blank in get_initial_state: rows outside z_indices for SweepDecoder3D, rows '
+              'of stabilizer_type face for RotatedSweepDecoder3D (TracksRot keeps the X part of the error, because '
+              'on the defect lines of an odd-sized RotatedToric3DCode a face generator carries Z letters). The '
+              'hypotheses are proved for Toric3DCode of every size L_i >= 2, Planar3DCode of every size, '
+              'RotatedPlanar3DCode of every size and RotatedToric3DCode of every size L_x, L_y >= 2, any L_z, both '
+              'parities (rotated_toric3D_flip_table_ok, _stabilizers_distinct, _sweep_edges_ok: coordinate argument '
+              'over the (x+y)%4 sub-lattices with the periodic seam as cyclic successor / predecessor and the '
+              'has_defect letter rule as a parity rule; odd x odd sizes, which the class does not support, are '
+              'covered too; a side of length 1 is a proved negative instance), so C10 holds on all four families of '
+              'allowed_codes unconditionally (toric3D_/planar3D_/rotated_planar3D_/rotated_toric3D_sweep_tracks, '
+              '_stop_clean). The rotated automaton is modelled as repaired (_wrap in get_sweep_faces, '
+              'get_sweep_edges and flip_edge, the code-id test as a flag of the lattice; initial state blanked by '
+              'type); regression theorems about the decoder BEFORE the repair (old... definitions): its flip table '
+              'on RotatedToric3DCode 2x2x2 is inconsistent on 8 of 10 edges (former finding D10) and its initial '
+              'state blanks a face row on the defect line of 2x3x2. Ten RotatedPlanar3DCode and seven '
+              'RotatedToric3DCode sizes are additionally kernel-evaluated as an independent cross-check, and the '
+              'compiled model evaluates the hypotheses on every size the harness runs. The model is tied to the '
+              'decoders by differential runs of flip_edge on every edge, of _wrap / get_sweep_faces / '
+              'get_sweep_edges at every vertex in all eight directions, of every sweep_move of traced decodes, and '
+              'of full decode results.')
 LEVEL_NOTE = ('trusted: Lean kernel + standard axioms; correspondence harness; hand-written Lean transcription of '
               'the two automata and of the four 3-D lattices (compared with the implementation on every run: '
-              'coordinates, stabilizer supports, types, z_indices); signs are modelled as 0/1 values; the numpy '
-              'generator behind get_default_direction is an input stream. RotatedToric3DCode: the flip table is '
-              'inconsistent (known finding D10), proved as a negative instance.')
+              'coordinates, stabilizer supports, types, z_indices, even x even and odd x even RotatedToric3DCode '
+              'sizes); signs are modelled as 0/1 values; the numpy generator behind get_default_direction is an '
+              'input stream; `code.id == RotatedToric3DCode` is the Boolean field rotSeam of the lattice record. '
+              'The seam repair of RotatedSweepDecoder3D is pending as a commit of the library (known_findings: '
+              'fixed PENDING); the former finding D10 is kept as a regression corpus of the oracle that must pass.')
 TECHNIQUE = ('Lean 4 proof (induction over automaton steps from a one-step toggle lemma; coordinate arithmetic '
              'with omega for the all-sizes geometry) + differential correspondence with the compiled model driver')
 TRUSTED = ['numpy Generator.choice behind get_default_direction is modelled as an arbitrary stream of values in '
